@@ -262,7 +262,8 @@ theorem holdStepRelO (wk : Option Int) : StepRelO wk (Hold wk) where
     refine ⟨rfl, ?_, ?_, fun _ l hl => by simp [ret] at hl⟩
     · intro hi; exact nodeInv_setNode g k n _ hn rfl (hi k n hn).2 hi
     · exact sleepingNode_setNode g k n _ hn (fun h => h)
-  setOta g o := ⟨rfl, fun hi => hi, fun _ h => h, fun _ l hl => by simp [ret] at hl⟩
+  setStores g o _ := ⟨rfl, fun hi => hi, fun _ h => h, fun _ l hl => by simp [ret] at hl⟩
+  storeFw g _ _ _ _ _ _ := ⟨rfl, fun hi => hi, fun _ h => h, fun _ l hl => by simp [ret] at hl⟩
   setCanLog g := ⟨rfl, fun hi => hi, fun _ h => h, fun _ l hl => by simp [ret] at hl⟩
 
 theorem hold_storeDesired (wk : Option Int) (g : GW) (node child : Int) (n : Node) (vt : Option Int)
